@@ -376,9 +376,17 @@ def _r3_positiontup(ctx, f, ks, msg_bad, detail_ok):
     if unknown and not bad:
         ctx.error(f"{f.key}:positiontup: cannot tell in which name space the names stored into positiontup live "
                   f"(line {unknown[0].lineno}); the rule does not understand how they are computed")
-    ctx.check(not bad, f.key + ":positiontup",
-              msg_bad + (f" (line {bad[0].lineno}: the stored names are {SPACE_WORD.get(bad[0].idx_space)})" if bad else ""),
-              detail_ok + f" ({len(stores)} store(s))", f.loc)
+    # ... and it is stored on every path to the normal exit
+    from ..cfg import no_exc
+    g = ctx.cfg(f)
+    st_nodes = [nid for n in walk_local(f.node) if isinstance(n, (ast.Assign, ast.AnnAssign))
+                and any(self_attr(t) == "positiontup" for t in (n.targets if isinstance(n, ast.Assign) else [n.target]))
+                for nid in g.nodes_for(n)]
+    w = g.must_pass([g.entry], [g.exit], st_nodes, edge_ok=no_exc) if st_nodes else ["no store"]
+    ctx.check(not bad and w is None, f.key + ":positiontup",
+              (msg_bad + f" (line {bad[0].lineno}: the stored names are {SPACE_WORD.get(bad[0].idx_space)})") if bad else
+              "positiontup is not set on every path through the method (parameters would be delivered in no order at all)",
+              detail_ok + f" ({len(stores)} store(s))", f.loc, None if bad or w is None else w)
 
 
 def _text_sub_calls(ks, fn):
@@ -1007,3 +1015,6 @@ R.mutant("benign-r2-translation-in-a-helper-method", COMP, chain(
         "            lambda m: self._bind_translate_chars[m.group(0)], name\n"
         "        )\n\n"
         "    def _dispatch_independent_ctes(self, stmt, kw):\n")), None)
+R.mutant("r3-positional-escaped-branch-forgets-positiontup", COMP, sub(
+    "            self.positiontup = [\n                reverse_escape.get(name, name) for name in positions\n            ]\n",
+    "            positions = [\n                reverse_escape.get(name, name) for name in positions\n            ]\n"), "C04-R3")
